@@ -8,6 +8,9 @@ Stage B: TLC (MC_C18_gen) chooses structures (0..3 sublists x 0..3 instructions 
          command/complete/reject/other types), rows of (MCC, MNC) and the malformed inputs derived from the
          specification's encodings; the driver builds them through the real API, encodes, decodes and offers the
          malformed inputs to every decoding entry point under ev.Guard + watchdog; it also records seeded random runs.
+         Histories (UePolicyHistory / MC_C18_hist): TLC explores encode / append-a-fresh-item / adopt-decoded /
+         encode-again histories on one structure, checks that an encoding is always Marshal of the current value
+         (plus the growth law), and prints every history; the driver replays each on ONE live object.
 Stage C: every event is judged by TLC (Trace_C18): octets = Marshal, lengths/projection = Proj, PLMN octets per
          TS 24.008, encodings decode to their structure, no panic, no hang."""
 import json, os, sys
@@ -16,10 +19,34 @@ from vlib import *
 
 META = dict(
     property_id="C18", engine="tlc-uepolicy",
-    technique="TLA+ grammar of TS 24.501 Annex D (marshal, strict recursive parser, parser machine with termination measure, TS 24.008 PLMN codec) model-checked by TLC; TLC-generated structures, PLMN rows and malformed inputs replayed on the real uePolicyContainer API; recorded events trace-validated by TLC against Marshal / Proj / Parse of the specification",
+    technique="TLA+ grammar of TS 24.501 Annex D (marshal, strict recursive parser, parser machine with termination measure, TS 24.008 PLMN codec, encode/grow/adopt history machine) model-checked by TLC; TLC-generated structures, histories on one live object, PLMN rows and malformed inputs replayed on the real uePolicyContainer API; recorded events trace-validated by TLC against Marshal / Proj / Parse of the specification",
     level=("model_checking", "The specification's laws (parse after marshal is the identity, the parser machine terminates with a strictly decreasing measure on every input of the mutation tree and agrees with the recursive parser, the PLMN digit codec round-trips on all MCC x MNC) are checked exhaustively by TLC on small domains; the real code is bound by replaying TLC-chosen structures and malformed inputs and by validating every recorded observation (octets, lengths, projections, PLMN octets, panic/hang) with a total TLA+ trace specification.", "7/C18"),
     level_note="Trusted: TLC, the Go runtime, ev.Guard/watchdog. Domain: structures built through the API with Len fields left zero, MCC 100..999, MNC 10..999 given as integers, cause 0x6F; contents below 65535 octets. Exhaustive only on the small domains of stage A; the real code sees the generated shapes, all MCC x boundary MNC (thorough: all MCC x all MNC) and seeded random inputs. The IE is modelled with its IEI octet as the library carries it.",
 )
+
+HIST_OPS = ("TraceReset", "HNew", "HGrow", "HAdopt", "HEnc")
+
+
+def is_hist(ln):
+    return ln.startswith('{"op":"TraceReset"') or ln.startswith('{"op":"HNew"') or ln.startswith('{"op":"HGrow"') or \
+        ln.startswith('{"op":"HAdopt"') or ln.startswith('{"op":"HEnc"')
+
+
+def history_case(hevents, idx):
+    """the whole history (TraceReset .. next TraceReset) that contains event idx, as a generator case"""
+    lo = idx
+    while lo > 0 and not hevents[lo].startswith('{"op":"TraceReset"'): lo -= 1
+    hi = idx + 1
+    while hi < len(hevents) and not hevents[hi].startswith('{"op":"TraceReset"'): hi += 1
+    case = dict(k="hist", kind=None, val=[], ops=[])
+    for ln in hevents[lo:hi]:
+        e = json.loads(ln)
+        if e["op"] == "HNew": case["kind"], case["val"] = e["hkind"], e["val"]
+        elif e["op"] == "HEnc": case["ops"].append(dict(op="enc"))
+        elif e["op"] == "HAdopt": case["ops"].append(dict(op="adopt"))
+        elif e["op"] == "HGrow": case["ops"].append(dict(op="grow", level=e["level"], s=e["s"], i=e["i"], item=e["item"]))
+    return case, idx - lo
+
 
 DEC_OPS = ("DecodeMsg", "ListUnmarshal", "ContentUnmarshal", "InstrsUnmarshal", "PartsUnmarshal",
            "ResultUnmarshal", "RContentUnmarshal", "ResultsUnmarshal")
@@ -58,6 +85,16 @@ def run(c):
         cfg = cfg.replace("MaxRes = 2", "MaxRes = 3").replace("MachRes = 2", "MachRes = 3")
         open(p, "w").write(cfg)
     c.stage_a(sd, "MC_C18", "MC_C18", workers=workers, timeout=3000)
+    # ---- histories: laws of UePolicyHistory + every history printed for replay
+    if thorough:
+        p = os.path.join(sd, "MC_C18_hist.cfg")
+        cfg = open(p).read().replace("Rich = FALSE", "Rich = TRUE")
+        open(p, "w").write(cfg)
+    resh = c.stage_a(sd, "MC_C18_hist", "MC_C18_hist", workers=workers, timeout=1800)
+    hcases = [json.loads(json.loads(ln)) for ln in resh.printed if ln.startswith('"{')]
+    if len(hcases) < 100 or any(x.get("k") != "hist" for x in hcases):
+        raise Infra("history generator produced %d histories" % len(hcases))
+    hcases.sort(key=lambda x: json.dumps(x, sort_keys=True))
     # ---- stage B: generated cases
     if thorough:
         p = os.path.join(sd, "MC_C18_gen.cfg")
@@ -71,7 +108,8 @@ def run(c):
     if len(cases) != res.distinct:
         raise Infra("case list incomplete: %d printed, %d descriptors" % (len(cases), res.distinct))
     cases.sort(key=lambda x: json.dumps(x, sort_keys=True)[:200])
-    c.cov["generated_cases"] = dict(build=sum(1 for x in cases if x["k"] == "build"), plmn_rows=sum(1 for x in cases if x["k"] == "plmn"),
+    cases += hcases
+    c.cov["generated_cases"] = dict(histories=len(hcases), build=sum(1 for x in cases if x["k"] == "build"), plmn_rows=sum(1 for x in cases if x["k"] == "plmn"),
                                     malformed=sum(len(j["ops"]) * (len(j["cuts"]) + len(j["patches"])) for x in cases for j in x.get("jobs", [])))
     # ---- drive the real code
     drv = c.build_driver("uepol")
@@ -79,9 +117,12 @@ def run(c):
     out1 = os.path.join(c.scratch, "replay.ndjson"); out2 = os.path.join(c.scratch, "record.ndjson")
     c.run_driver(drv, ["replay", cp, out1], timeout=1800)
     c.run_driver(drv, ["record", out2], timeout=1800)
-    events = read_ndjson(out1) + read_ndjson(out2)
+    allev = read_ndjson(out1) + read_ndjson(out2)
+    events = [ln for ln in allev if not is_hist(ln)]
+    hevents = [ln for ln in allev if is_hist(ln)]
     # ---- stage C
     mism = c.validate("Trace_C18", events, shards=14 if thorough else 12, timeout=2400)
+    hmism = c.validate("Trace_C18", hevents, shards=6 if thorough else 4, timeout=2400, stateful=True)
     lenient = [0]
 
     def classify(idx, t):
@@ -105,6 +146,38 @@ def run(c):
         c.cov["traces_validated_against_impl"] -= len(ev3)
         return any(m[1][2] == t[2] and m[1][3] == t[3] for m in again)
     c.triage(mism, classify, confirm)
+    seen1 = dict(c.cov.get("mismatch_classes", {}))
+
+    def hclassify(idx, t):
+        if len(t) < 5:
+            raise Infra("unparsable MISMATCH line %r" % (t,))
+        if t[2] == "INFO":
+            return None
+        if t[3] in ("bad-history", "panic-nonlib"):
+            raise Infra("history replay problem (%s): %s" % (t[3], hevents[idx][:600]))
+        case, pos = history_case(hevents, idx)
+        e = json.loads(hevents[idx])
+        what = "history on one %s structure, %d operations (%s); at operation %d (%s): " % (
+            case["kind"], len(case["ops"]), " ".join(o["op"] + (":" + o["level"] if o["op"] == "grow" else "") for o in case["ops"]), pos - 1, e["op"])
+        if e["op"] == "HEnc":
+            what += "enc=%s (%d octets) eerr=%s derr=%s is not Marshal of the current value / does not decode to it" % (e["enc"][:40], len(e["enc"]), e["eerr"], e["derr"])
+        else:
+            what += "ok=%s panic=%s hang=%s" % (e["ok"], e["panic"], e["hang"])
+        return (t[2], t[3], what, dict(case=case, observed=e if len(hevents[idx]) < 4000 else hevents[idx][:4000],
+                                       how="driver: uepol replay <file with [case]> out.ndjson; validate out.ndjson with spec/trace/Trace_C18"))
+
+    def hconfirm(idx, t):
+        case, _ = history_case(hevents, idx)
+        cp2 = os.path.join(c.scratch, "hconfirm.json"); json.dump([case], open(cp2, "w"))
+        out3 = os.path.join(c.scratch, "hconfirm.ndjson")
+        c.run_driver(drv, ["replay", cp2, out3])
+        ev3 = read_ndjson(out3)
+        again = c.validate("Trace_C18", ev3, shards=1, stateful=True)
+        c.cov["traces_validated_against_impl"] -= len(ev3)
+        return any(m[1][2] == t[2] and m[1][3] == t[3] for m in again)
+    c.triage(hmism, hclassify, hconfirm)
+    seen1.update(c.cov.get("mismatch_classes", {}))
+    c.cov["mismatch_classes"] = seen1
     if lenient[0]:
         c.note("%d malformed inputs were accepted without error by the decoders (lenient: a truncated region or a missing trailing field ends the list silently); information only, C18 demands totality on malformed input" % lenient[0])
     # ---- binding self-test: a corrupted logged field must be rejected by TLC
@@ -149,15 +222,27 @@ def run(c):
             ndec += 1
             k = ln[:ln.index(',"err"')]
             if not k.endswith('"in":[]'): c.count_distinct(hash(k))
-    c.cov["evaluations"] = 4 * nbuild + ndec + npairs
-    c.cov["events"] = dict(build=nbuild, decode=ndec, plmn_rows=len(events) - nbuild - ndec, plmn_pairs=npairs)
+    nhist = nhenc = 0
+    cur = None
+    for ln in hevents:
+        if ln.startswith('{"op":"TraceReset"'):
+            if cur: c.count_distinct(hash(cur))
+            cur = ""; nhist += 1
+        else:
+            nhenc += ln.startswith('{"op":"HEnc"')
+            cur += ln[:ln.index(',"panic"')] if not ln.startswith('{"op":"HEnc"') else "E"
+    if cur: c.count_distinct(hash(cur))
+    c.cov["evaluations"] = 4 * nbuild + ndec + npairs + 4 * nhenc + (len(hevents) - nhist - nhenc)
+    c.cov["events"] = dict(build=nbuild, decode=ndec, plmn_rows=len(events) - nbuild - ndec, plmn_pairs=npairs, histories=nhist, history_encodings=nhenc)
     c.cov["rule"] = ("evaluations = real API calls (4 per built message: encode, decode, IE marshal, IE unmarshal; one per decoding call; one SetPlmnDigit + marshal/unmarshal per (MCC, MNC)); "
-                     "distinct non-trivial = distinct built messages with at least one sublist/subresult + distinct (entry point, non-empty octet string) decodings + distinct in-domain (setter, MCC, MNC)")
+                     "a history operation counts like its calls; distinct non-trivial = distinct histories (initial value + operations) + distinct built messages with at least one sublist/subresult + distinct (entry point, non-empty octet string) decodings + distinct in-domain (setter, MCC, MNC)")
     c.cov["exhaustive"] = False
-    for i in (0, len(events) // 3, len(events) // 2, len(events) - 1):
+    for i in (0, len(events) // 3, len(events) - 1):
         c.sample(events[i])
+    c.sample(hcases[len(hcases) // 2])
     c.assumptions += ["built through the API: Len fields left zero, the IE length set from the marshalled contents with its setter, cause 0x6F, PLMN through SetPlmnDigit with MCC 100..999 and MNC 10..999 (an integer MNC below 100 is a two-digit MNC)",
                       "values SetPlmnDigit rejects are outside the domain; values it accepts outside 0..999 get no verdict",
+                      "histories only ADD fresh items (Len fields zero) to a live structure; they do not change the contents of a part that has been encoded (the library documents that a part whose Len is non-zero keeps it: a caller-supplied length)",
                       "malformed input: only totality (no panic, no hang) is demanded; octets that are the encoding of a structure must decode to it",
                       "stage A exhaustive for <= 2 x 2 x 2 nesting with contents of 0/1 octets; parser machine on the mutation tree of <= 2 x 2 x %d" % (2 if thorough else 1)]
 
